@@ -58,7 +58,7 @@ def hx(b):
 def gen_cases(tier, seed):
     rnd = random.Random(seed * 15485863 + 20)
     cases = []
-    reps = 1 if tier == "quick" else 5
+    reps = 2 if tier == "quick" else 40
     for rep in range(reps):
         for kind in KINDS:
             for (nodes, ppn) in LAYOUTS:
@@ -72,7 +72,7 @@ def gen_cases(tier, seed):
                         flags = rnd.choice([0, 1]) | 8 | rnd.choice([0, 2])
                     n = rnd.choice([0, 1, 3]) if rnd.random() < 0.25 else rnd.choice([8, 20, 45])
                     cases.append({"kind": kind, "nodes": nodes, "ppn": ppn, "n": n, "flags": flags, "seed": rnd.randrange(1, 10 ** 9),
-                                  "sim_seed": rnd.randrange(1, 10 ** 6)})
+                                  "sim_seed": rnd.randrange(1, 10 ** 6), "routing": rnd.choice(["NONE", "NR", "NLNR"])})
     # strings with NUL bytes, kept apart so that their failures cannot mask anything else; first the minimal directed one
     cases.insert(0, {"kind": "set", "nodes": 1, "ppn": 1, "n": 2, "flags": 4 | 64, "seed": 1, "sim_seed": 1})
     for kind in (KINDS if tier != "quick" else ["map", "set", "bag"]):
@@ -84,7 +84,7 @@ def gen_cases(tier, seed):
 
 def run_case(binary, case):
     return C.run_sim(binary, ["ser", case["kind"], case["seed"], case["n"], case["flags"]], nodes=case["nodes"], ppn=case["ppn"],
-                     sim_seed=case.get("sim_seed", 1), want_log=False, timeout=120)
+                     sim_seed=case.get("sim_seed", 1), want_log=False, timeout=120, env={"YGM_COMM_ROUTING": case.get("routing", "NONE")})
 
 
 def parse_elem(kind, w):
@@ -357,7 +357,7 @@ def check_case(res, case, sr, model_ok):
     for f in feats:
         res.count(f)
     if feats:
-        res.distinct.add((kind, case["nodes"], case["ppn"], case["flags"], tuple(sorted(feats))))
+        res.distinct.add((kind, case["nodes"], case["ppn"], case.get("routing"), case["flags"], tuple(sorted(feats))))
     if ranks == 4 and kind == "multimap" and "equal-key-run" in feats:
         res.sample({"kind": kind, "layout": f"{case['nodes']}x{case['ppn']}", "flags": case["flags"], "rank0_original": [show_elem(e) for e in per[0]["a"][:5]],
                     "rank0_reloaded": [show_elem(e) for e in per[0]["b"][:5]]})
@@ -454,7 +454,7 @@ def replay(data):
     if binary is None:
         print(err[-500:])
         return False
-    keep = {k: case[k] for k in ("kind", "nodes", "ppn", "n", "flags", "seed", "sim_seed") if k in case}
+    keep = {k: case[k] for k in ("kind", "nodes", "ppn", "n", "flags", "seed", "sim_seed", "routing") if k in case}
     sr = run_case(binary, keep)
     res = C.Result()
     check_case(res, keep, sr, True)
